@@ -223,6 +223,227 @@ theorem stake_unstake_backed (s : State) (a : Acct) (d : String) (amt : Nat) :
         simp [payOut, subStake, this]
       · simp [h1, h2]
 
+/-! ## whole histories: locked power is always covered -/
+
+/-- every account's active locks are covered by its total power, and a lock entry's vault exists -/
+structure LInv (s : State) : Prop where
+  covered : ∀ a, Covers s a (totalPower s a)
+  vault : ∀ a k p, s.locks a k = some p → (s.vaults k).isSome
+
+theorem covers_transfer (s s' : State) (b : Acct) (p p' : Nat) (hk : s'.lockKeys b = s.lockKeys b) (hl : s'.locks b = s.locks b)
+    (hv : ∀ k q, s.locks b k = some q → s'.vaults k = some true → s.vaults k = some true) (hp : p ≤ p') (h : Covers s b p) :
+    Covers s' b p' := by
+  intro k q hk' hl' hv'
+  rw [hk] at hk'; rw [hl] at hl'
+  exact Nat.le_trans (h k q hk' hl' (hv k q hl' hv')) hp
+
+theorem sum_map_le_of_le (l : List String) (f g : String → Nat) (h : ∀ d, f d ≤ g d) : (l.map f).sum ≤ (l.map g).sum := by
+  induction l with
+  | nil => simp
+  | cons x xs ih => simp only [List.map_cons, List.sum_cons]; have := h x; omega
+
+/-- operations of a history other than a change of the allowed denoms (a governance change of what counts as power) -/
+def OpOk : Op → Prop
+  | .setAllowed _ => False
+  | _ => True
+
+theorem step_linv (s : State) (op : Op) (h : LInv s) (ok : OpOk op) : LInv (apply s op) := by
+  cases op with
+  | setAllowed l => exact absurd ok (by simp [OpOk])
+  | stake a d n =>
+    simp only [apply, stakeOp]
+    split
+    · exact h
+    · split
+      · exact h
+      · refine ⟨fun b => ?_, h.vault⟩
+        apply covers_transfer s _ b (totalPower s b) _ rfl rfl (fun _ _ _ hv => hv) ?_ (h.covered b)
+        unfold totalPower delegated stakedPower
+        apply Nat.add_le_add_left
+        apply sum_map_le_of_le
+        intro d'
+        show s.stake b d' ≤ (if b = a ∧ d' = d then s.stake a d + n else s.stake b d')
+        split
+        · rename_i e; obtain ⟨rfl, rfl⟩ := e; omega
+        · exact Nat.le_refl _
+  | unstake a d n =>
+    by_cases hok : (unstakeOp s a d n).2 = Err.ok
+    · have hc := (unstake_respects_locks s a d n).1 hok
+      -- the accepted state: stake of (a, d) reduced, coins paid out
+      have hst : (apply s (.unstake a d n)) = payOut (subStake s a d n) a d n := by
+        simp only [apply]
+        unfold unstakeOp at hok ⊢
+        split
+        · rename_i h1; simp [h1] at hok
+        · split
+          · rfl
+          · rename_i h1 h2; simp [h1, h2] at hok
+      refine ⟨fun b => ?_, ?_⟩
+      · by_cases e : b = a
+        · subst e; exact hc
+        · rw [hst]
+          apply covers_transfer s _ b (totalPower s b) _ rfl rfl (fun _ _ _ hv => hv) ?_ (h.covered b)
+          unfold totalPower delegated stakedPower payOut subStake
+          simp only [e, false_and, if_false]; exact Nat.le_refl _
+      · rw [hst]; exact h.vault
+    · simp only [apply]; rw [(unstake_respects_locks s a d n).2 hok]; exact h
+  | delegate a v n =>
+    simp only [apply, delegateOp]
+    split
+    · exact h
+    · split
+      · rename_i hv
+        refine ⟨fun b => ?_, h.vault⟩
+        by_cases e : b = a
+        · subst e
+          have := (isValidPower_is_covers (addDeleg s b v n) b (totalPower (addDeleg s b v n) b)).mp hv
+          exact covers_transfer (addDeleg s b v n) _ b _ _ rfl rfl (fun _ _ _ hv' => hv') (Nat.le_refl _) this
+        · apply covers_transfer s _ b (totalPower s b) _ rfl rfl (fun _ _ _ hv' => hv') ?_ (h.covered b)
+          unfold totalPower delegated stakedPower payBond addDeleg
+          simp only [e, false_and, if_false]; exact Nat.le_refl _
+      · exact h
+  | undelegate a v n =>
+    by_cases hok : (undelegateOp s a v n).2 = Err.ok
+    · have hc := (undelegate_respects_locks s a v n).1 hok
+      have hst : (apply s (.undelegate a v n)) = subDeleg s a v n := by
+        simp only [apply]
+        unfold undelegateOp at hok ⊢
+        split
+        · rfl
+        · rename_i h1; simp [h1] at hok
+      refine ⟨fun b => ?_, by rw [hst]; exact h.vault⟩
+      by_cases e : b = a
+      · subst e; exact hc
+      · rw [hst]
+        apply covers_transfer s _ b (totalPower s b) _ rfl rfl (fun _ _ _ hv => hv) ?_ (h.covered b)
+        unfold totalPower delegated stakedPower subDeleg
+        simp only [e, false_and, if_false]; exact Nat.le_refl _
+    · simp only [apply]; rw [(undelegate_respects_locks s a v n).2 hok]; exact h
+  | redelegate a x y n =>
+    by_cases hok : (redelegateOp s a x y n).2 = Err.ok
+    · have hc := (redelegate_respects_locks s a x y n).1 hok
+      have hst : (apply s (.redelegate a x y n)) = addDeleg (subDeleg s a x n) a y n := by
+        simp only [apply]
+        unfold redelegateOp at hok ⊢
+        split
+        · split
+          · rfl
+          · rename_i h1 h2; simp [h1, h2] at hok
+        · rename_i h1; simp [h1] at hok
+      refine ⟨fun b => ?_, by rw [hst]; exact h.vault⟩
+      by_cases e : b = a
+      · subst e; exact hc
+      · rw [hst]
+        apply covers_transfer s _ b (totalPower s b) _ rfl rfl (fun _ _ _ hv => hv) ?_ (h.covered b)
+        unfold totalPower delegated stakedPower addDeleg subDeleg
+        simp only [e, false_and, if_false]; exact Nat.le_refl _
+    · simp only [apply]; rw [(redelegate_respects_locks s a x y n).2 hok]; exact h
+  | deactivate k =>
+    simp only [apply, deactivateOp]
+    cases hv : s.vaults k with
+    | none => exact h
+    | some b =>
+      cases b with
+      | false => exact h
+      | true =>
+        dsimp only
+        refine ⟨fun a => ?_, ?_⟩
+        · refine covers_transfer s _ a (totalPower s a) _ rfl rfl ?_ (Nat.le_refl _) (h.covered a)
+          intro k' q _ hv'
+          by_cases e : k' = k
+          · subst e; simp at hv'
+          · simpa [e] using hv'
+        · intro a k' p hl
+          show (if k' = k then some false else s.vaults k').isSome
+          split
+          · rfl
+          · exact h.vault a k' p hl
+  | setLock a k pw =>
+    simp only [apply, setLockOp]
+    split
+    · exact h
+    · split
+      · exact h
+      · rename_i hneg hpow
+        -- the vault after GetOrCreateVault
+        have key : ∀ (s1 : State), s1.deleg = s.deleg → s1.stake = s.stake → s1.allowed = s.allowed → s1.vals = s.vals → s1.locks = s.locks → s1.lockKeys = s.lockKeys →
+            (∀ x, x ≠ k → s1.vaults x = s.vaults x) → (s.vaults k = none → s1.vaults k = some true) → (s.vaults k ≠ none → s1.vaults k = s.vaults k) →
+            LInv (if !isActiveVault s1 k then s else
+              { s1 with
+                  locks := fun x y => if x = a ∧ y = k then some pw.toNat else s1.locks x y,
+                  lockKeys := fun x => if x = a then insertKey (s1.lockKeys a) k else s1.lockKeys x }) := by
+          intro s1 e1 e2 e3 e4 e5 e6 e7 e8 e9
+          split
+          · exact h
+          · rename_i hact
+            have hact' : s1.vaults k = some true := by simpa [isActiveVault] using hact
+            have hpw : ∀ b, totalPower
+                { s1 with
+                    locks := fun x y => if x = a ∧ y = k then some pw.toNat else s1.locks x y,
+                    lockKeys := fun x => if x = a then insertKey (s1.lockKeys a) k else s1.lockKeys x } b = totalPower s b := by
+              intro b; unfold totalPower delegated stakedPower; simp only [e1, e2, e3, e4]
+            refine ⟨fun b => ?_, ?_⟩
+            · rw [hpw b]
+              intro k' q hk' hl' hv'
+              simp only at hk' hl' hv'
+              by_cases e : b = a ∧ k' = k
+              · obtain ⟨rfl, rfl⟩ := e
+                simp only [and_self, if_true, Option.some.injEq] at hl'
+                subst hl'
+                have : (pw.toNat : Int) = pw := Int.toNat_of_nonneg (by omega)
+                have hle : pw ≤ (totalPower s b : Int) := by omega
+                omega
+              · simp only [e, if_false] at hl'
+                rw [e5] at hl'
+                have hv'' : s.vaults k' = some true := by
+                  by_cases ek : k' = k
+                  · subst ek
+                    cases hsv : s.vaults k' with
+                    | none => have := h.vault b k' q hl'; rw [hsv] at this; cases this
+                    | some bb => rw [e9 (by rw [hsv]; simp)] at hv'; rw [← hsv]; exact hv'
+                  · rw [e7 k' ek] at hv'; exact hv'
+                have hk'' : k' ∈ s.lockKeys b := by
+                  by_cases eb : b = a
+                  · subst eb
+                    simp only [if_true] at hk'
+                    rw [e6] at hk'
+                    unfold insertKey at hk'
+                    split at hk'
+                    · exact hk'
+                    · rcases List.mem_append.mp hk' with h1 | h1
+                      · exact h1
+                      · simp only [List.mem_singleton] at h1
+                        exact absurd ⟨rfl, h1⟩ e
+                  · simp only [eb, if_false] at hk'; rw [e6] at hk'; exact hk'
+                exact h.covered b k' q hk'' hl' hv''
+            · intro b k' q hl
+              simp only at hl ⊢
+              by_cases e : b = a ∧ k' = k
+              · obtain ⟨rfl, rfl⟩ := e; rw [hact']; rfl
+              · simp only [e, if_false] at hl
+                rw [e5] at hl
+                have := h.vault b k' q hl
+                by_cases ek : k' = k
+                · subst ek; rw [hact']; rfl
+                · rw [e7 k' ek]; exact this
+        have fst_ite : ∀ (c : Prop) [Decidable c] (x y : State) (e1 e2 : Err), (if c then (x, e1) else (y, e2)).1 = if c then x else y := by
+          intro c _ x y e1 e2; split <;> rfl
+        cases hsv : s.vaults k with
+        | none =>
+          simp only [fst_ite]
+          exact key _ rfl rfl rfl rfl rfl rfl (fun x hx => if_neg hx) (fun _ => if_pos rfl) (fun hne => absurd hsv hne)
+        | some bb =>
+          simp only [fst_ite]
+          exact key s rfl rfl rfl rfl rfl rfl (fun _ _ => rfl) (fun hn => by rw [hsv] at hn; cases hn) (fun _ => rfl)
+
+/-- PROPERTY (locked power can never be withdrawn, over EVERY history): after any sequence of stakes, unstakes, delegations,
+    undelegations, redelegations, lock changes and vault deactivations — accepted or rejected — every account's total power
+    (bonded delegations + restaked allowed coins) still covers each of its locks on an active vault -/
+theorem locks_always_covered (ops : List Op) (s : State) (h : LInv s) (ok : ∀ op ∈ ops, OpOk op) : LInv (ops.foldl apply s) := by
+  induction ops generalizing s with
+  | nil => exact h
+  | cons op rest ih => exact ih _ (step_linv s op h (ok op (List.mem_cons_self ..))) (fun o ho => ok o (List.mem_cons_of_mem _ ho))
+
 /-! non-vacuity -/
 def demo : State :=
   { deleg := fun a v => if a = 0 ∧ v = 0 then 10 else 0, stake := fun a d => if a = 0 ∧ d = "uband" then 5 else 0,
@@ -236,5 +457,18 @@ example : (unstakeOp demo 0 "uband" 6).2 = Err.stakeNotEnough := by decide
 example : (setLockOp demo 0 "feeds" 16).2 = Err.powerNotEnough := by decide
 example : (setLockOp demo 0 "feeds" 15).2 = Err.ok := by decide
 example : (deactivateOp demo "feeds").2 = Err.ok := by decide
+/-- the demo state satisfies the history invariant (total power 15 covers the active lock of 12) -/
+example : LInv demo := by
+  refine ⟨?_, ?_⟩
+  · intro a k p hk hl hv
+    by_cases e : a = 0 ∧ k = "feeds"
+    · obtain ⟨rfl, rfl⟩ := e
+      simp [demo] at hl; subst hl
+      simp [totalPower, delegated, stakedPower, demo]
+    · simp [demo, e] at hl
+  · intro a k p hl
+    by_cases e : a = 0 ∧ k = "feeds"
+    · obtain ⟨rfl, rfl⟩ := e; simp [demo]
+    · simp [demo, e] at hl
 
 end C16
